@@ -129,7 +129,21 @@ func runPrefix(sc Scenario, prefix []int, o Opts, record bool) runOut {
 		choices = append(choices, c)
 		return c
 	}
-	res := mc.Run(ex.Body, mc.Options{Chooser: chooser, Record: record, RecordN: !record, Clocks: record || o.Races, Races: o.Races, MaxEvents: o.MaxEvents, OnPoint: ex.OnPoint, Sites: o.Sites})
+	altChooser := func(s *mc.Sched, n int) int {
+		i := step
+		step++
+		c := 0
+		if i < len(prefix) {
+			c = prefix[i]
+			if c >= n {
+				bad = fmt.Sprintf("replay divergence at point %d: alternative %d of %d", i, c, n)
+				c = 0
+			}
+		}
+		choices = append(choices, c)
+		return c
+	}
+	res := mc.Run(ex.Body, mc.Options{Chooser: chooser, AltChooser: altChooser, Record: record, RecordN: !record, Clocks: record || o.Races, Races: o.Races, MaxEvents: o.MaxEvents, OnPoint: ex.OnPoint, Sites: o.Sites})
 	if bad != "" && res.Internal == "" {
 		res.Internal = bad
 	}
@@ -253,6 +267,13 @@ type node struct {
 	backtrack map[int]bool
 	done      map[int]bool
 	sleep     map[int]bool // goroutines whose exploration from this node is redundant
+	// data choices made while executing this node's event (which ready select case proceeds): all alternatives are explored
+	alts []*altNode
+}
+
+type altNode struct {
+	n      int
+	chosen int
 }
 
 func sendSide(k mc.OpKind) bool { return k == mc.OpSend || k == mc.OpClose }
@@ -292,7 +313,41 @@ func depOps(ak mc.OpKind, aobj, aarg int, bk mc.OpKind, bobj, barg int) bool {
 	return false
 }
 
-func dependent(a, b mc.Event) bool { return depOps(a.Kind, a.Obj, a.Arg, b.Kind, b.Obj, b.Arg) }
+func dependent(a, b mc.Event) bool {
+	if a.Kind == mc.OpSelect || b.Kind == mc.OpSelect {
+		return selDep(a.Kind, a.Obj, a.Objs, b.Kind, b.Obj, b.Objs)
+	}
+	return depOps(a.Kind, a.Obj, a.Arg, b.Kind, b.Obj, b.Arg)
+}
+
+// selDep: a select observes the readiness of all its channels (and may take a default), so it conflicts with every
+// operation on any of them, on either side, and with every select sharing a channel.
+func selDep(ak mc.OpKind, aobj int, aobjs []int, bk mc.OpKind, bobj int, bobjs []int) bool {
+	objsOf := func(k mc.OpKind, o int, os []int) []int {
+		if k == mc.OpSelect {
+			return os
+		}
+		if k == mc.OpSend || k == mc.OpRecv || k == mc.OpClose {
+			return []int{o}
+		}
+		return nil
+	}
+	for _, x := range objsOf(ak, aobj, aobjs) {
+		for _, y := range objsOf(bk, bobj, bobjs) {
+			if x == y && x >= 0 {
+				return true
+			}
+		}
+	}
+	return false
+}
+
+func pendDep(p mc.Pending, ev mc.Pending) bool {
+	if p.Kind == mc.OpSelect || ev.Kind == mc.OpSelect {
+		return selDep(p.Kind, p.Obj, p.Objs, ev.Kind, ev.Obj, ev.Objs)
+	}
+	return depOps(p.Kind, p.Obj, p.Arg, ev.Kind, ev.Obj, ev.Arg)
+}
 
 func isMu(k mc.OpKind) bool {
 	return k == mc.OpLock || k == mc.OpUnlock || k == mc.OpRLock || k == mc.OpRUnlock
@@ -347,7 +402,7 @@ func DPOR(sc Scenario, o Opts) *Stats {
 				par := stack[i-1]
 				ev := par.pend[par.chosen]
 				for q := range par.sleep {
-					if pq, ok := par.pend[q]; ok && q != par.chosen && !depOps(pq.Kind, pq.Obj, pq.Arg, ev.Kind, ev.Obj, ev.Arg) {
+					if pq, ok := par.pend[q]; ok && q != par.chosen && !pendDep(pq, ev) {
 						n.sleep[q] = true
 					}
 				}
@@ -369,7 +424,30 @@ func DPOR(sc Scenario, o Opts) *Stats {
 			choices = append(choices, pick)
 			return pick
 		}
-		res := mc.Run(ex.Body, mc.Options{Chooser: chooser, Record: true, Clocks: true, Races: o.Races, MaxEvents: o.MaxEvents, OnPoint: ex.OnPoint, Sites: o.Sites})
+		altSeen := map[int]int{} // per node index: how many data choices were made so far in this run
+		altChooser := func(s *mc.Sched, n int) int {
+			ni := step - 1 // the node whose event is executing
+			if ni < 0 || ni >= len(stack) {
+				bad = "data choice outside a node"
+				return 0
+			}
+			nd := stack[ni]
+			k := altSeen[ni]
+			altSeen[ni]++
+			if k < len(nd.alts) {
+				if nd.alts[k].n != n {
+					bad = fmt.Sprintf("DPOR replay divergence at node %d: %d alternatives, recorded %d", ni, n, nd.alts[k].n)
+					choices = append(choices, 0)
+					return 0
+				}
+				choices = append(choices, nd.alts[k].chosen)
+				return nd.alts[k].chosen
+			}
+			nd.alts = append(nd.alts, &altNode{n: n})
+			choices = append(choices, 0)
+			return 0
+		}
+		res := mc.Run(ex.Body, mc.Options{Chooser: chooser, AltChooser: altChooser, Record: true, Clocks: true, Races: o.Races, MaxEvents: o.MaxEvents, OnPoint: ex.OnPoint, Sites: o.Sites})
 		if bad != "" && res.Internal == "" {
 			res.Internal = bad
 		}
@@ -400,8 +478,24 @@ func DPOR(sc Scenario, o Opts) *Stats {
 		}
 		byObj := map[int][]int{}
 		for j, e := range tr {
-			if e.Obj >= 0 && e.Kind != mc.OpContinue && e.Kind != mc.OpStart {
-				lst := byObj[e.Obj]
+			objs := []int{e.Obj}
+			if e.Kind == mc.OpSelect {
+				objs = e.Objs
+			}
+			if e.Kind == mc.OpContinue || e.Kind == mc.OpStart {
+				continue
+			}
+			// candidates: earlier events on any of the objects, latest first
+			var lst []int
+			for _, ob := range objs {
+				if ob >= 0 {
+					lst = append(lst, byObj[ob]...)
+				}
+			}
+			if len(objs) > 1 {
+				sort.Ints(lst)
+			}
+			if len(lst) > 0 || true {
 				for x := len(lst) - 1; x >= 0; x-- {
 					i := lst[x]
 					ep := tr[i]
@@ -431,7 +525,11 @@ func DPOR(sc Scenario, o Opts) *Stats {
 					}
 					break
 				}
-				byObj[e.Obj] = append(lst, j)
+				for _, ob := range objs {
+					if ob >= 0 {
+						byObj[ob] = append(byObj[ob], j)
+					}
+				}
 			}
 		}
 		// find the deepest node with work left; an explored choice goes to sleep at its node
@@ -439,6 +537,21 @@ func DPOR(sc Scenario, o Opts) *Stats {
 		k := len(stack) - 1
 		for ; k >= 0; k-- {
 			nd := stack[k]
+			// remaining alternatives of the data choices of this node (last choice first)
+			advanced := false
+			for a := len(nd.alts) - 1; a >= 0; a-- {
+				if nd.alts[a].chosen+1 < nd.alts[a].n {
+					nd.alts[a].chosen++
+					nd.alts = nd.alts[:a+1]
+					advanced = true
+					break
+				}
+			}
+			if advanced {
+				stack = stack[:k+1]
+				break
+			}
+			nd.alts = nil
 			nd.sleep[nd.chosen] = true
 			next := -1
 			for _, g := range nd.enabled {
